@@ -134,6 +134,8 @@ MC_C06 == Cex("C06", C06)
 MC_C08 == Cex("C08", C08)
 MC_C14 == Cex("C14", C14)
 MC_C16 == Cex("C16", C16)
+\* every call returns: a library frame on the stack can always take its next micro-step
+MC_Progress == Cex("Progress", (ctl.mode = "run" /\ ctl.stack # <<>>) => ENABLED Micro)
 MC_C07 == Cex("C07", C07)
 MC_C15 == Cex("C15", C15)
 MC_C12 == Cex("C12", C12 /\ C01 /\ C03 /\ C05)
